@@ -96,6 +96,40 @@ example : fastCompare (.abs "x" Ty.bool (.bound 0)) (.abs "y" Ty.bool (.bound 0)
     fastCompare (.var "b" Ty.bool) (.var "a" (Ty.fn Ty.bool Ty.bool)) = .gt ∧
     fastCompare (.var "b" Ty.bool) (.comb (.var "a" Ty.bool) (.var "a" Ty.bool)) = .lt := by decide
 
+/-- Transitivity of `fast_compare` in all four combinations of `<` and `=` (with `cmp_antisymm`: a
+strict total order on terms up to `==`; what `sorted` / `cmp_to_key` need for a canonical result). -/
+theorem cmp_trans (a b c : Term) :
+    (fastCompare a b = .lt → fastCompare b c = .lt → fastCompare a c = .lt) ∧
+    (fastCompare a b = .lt → fastCompare b c = .eq → fastCompare a c = .lt) ∧
+    (fastCompare a b = .eq → fastCompare b c = .lt → fastCompare a c = .lt) ∧
+    (fastCompare a b = .eq → fastCompare b c = .eq → fastCompare a c = .eq) :=
+  cmp_tt a b c
+
+example : fastCompare (.var "a" Ty.bool) (.var "b" Ty.bool) = .lt ∧
+    fastCompare (.var "b" Ty.bool) (.abs "x" Ty.bool (.bound 0)) = .lt ∧
+    fastCompare (.var "a" Ty.bool) (.abs "x" Ty.bool (.bound 0)) = .lt := by decide
+
+/-- Antisymmetry and consistency with `==`: `a < b` iff `b > a`; two terms neither of which is
+greater than the other are `==`; and `fast_compare` gives the same answer on `==` terms (so the
+order is an order on alpha-classes and sorting cannot separate or reorder equal terms inconsistently). -/
+theorem cmp_antisymm (a b : Term) :
+    (fastCompare a b = .lt ↔ fastCompare b a = .gt) ∧
+    (fastCompare a b = .gt ↔ fastCompare b a = .lt) ∧
+    (fastCompare a b ≠ .gt → fastCompare b a ≠ .gt → Term.aeq a b = true) ∧
+    (∀ a', Term.aeq a a' = true →
+      fastCompare a b = fastCompare a' b ∧ fastCompare b a = fastCompare b a') := by
+  have hs := cmp_swap a b
+  refine ⟨?_, ?_, ?_, fun a' h => ⟨cmp_congr_left a a' b h, cmp_congr_right b a a' h⟩⟩
+  · rw [← hs]; cases fastCompare a b <;> simp [Ordering.swap]
+  · rw [← hs]; cases fastCompare a b <;> simp [Ordering.swap]
+  · intro h1 h2
+    rw [← hs] at h2
+    apply (cmp_eq a b).1
+    cases e : fastCompare a b <;> simp_all [Ordering.swap]
+
+example : fastCompare (.abs "x" Ty.bool (.var "b" Ty.bool)) (.abs "y" Ty.bool (.var "a" Ty.bool)) = .gt ∧
+    fastCompare (.abs "y" Ty.bool (.var "a" Ty.bool)) (.abs "x" Ty.bool (.var "b" Ty.bool)) = .lt := by decide
+
 /-- `fast_compare_typ` is a total order on types whose equivalence is `==`. -/
 theorem cmp_ty_total (a b c : Ty) :
     (fastCompareTyp a b = .eq ↔ a = b) ∧
